@@ -47,6 +47,10 @@ def check(ctx):
         "a worker dying while it holds the result queue's internal write lock (the surviving workers then block inside multiprocessing)",
         "that the operating system reports the death through Process.exitcode / is_alive (trusted)",
     ]
+    # mechanisms this property rests on (see shared.py): a change there is reported here as well
+    from . import shared as _sh
+
+    _sh.cli_layer(ctx, "gaftools.cli.realign")
 
 
 def r13_1(ctx, m, L):
